@@ -134,8 +134,34 @@ func numericNameCases() [][2]bson.D {
 	return out
 }
 
+// bigNumberCases: longs beyond 2^53 against the neighbouring doubles (exact comparison in both directions and for
+// both signs), through every comparison operator, $in and $all with repeated members.
+func bigNumberCases() [][2]bson.D {
+	var out [][2]bson.D
+	e := func(k string, v interface{}) bson.D { return bson.D{{Key: k, Value: v}} }
+	const p53 = int64(1) << 53
+	vals := []interface{}{p53 + 1, p53, p53 - 1, -p53 - 1, -p53, -p53 + 1, float64(p53), float64(-p53), float64(p53) * 2, int64(1)<<62 + 1, float64(int64(1) << 62), int64(-(1 << 62)) - 1,
+		-float64(int64(1) << 62), int64(9007199254740993), float64(9007199254740994)}
+	for _, dv := range vals {
+		for _, qv := range vals {
+			for _, op := range []string{"$eq", "$ne", "$gt", "$gte", "$lt", "$lte"} {
+				out = append(out, [2]bson.D{e("a", dv), e("a", e(op, qv))})
+			}
+			out = append(out, [2]bson.D{e("a", dv), e("a", qv)}, [2]bson.D{e("a", bson.A{dv, int32(1)}), e("a", e("$in", bson.A{qv, "x"}))},
+				[2]bson.D{e("a", bson.A{dv, int32(1)}), e("a", e("$all", bson.A{qv, int32(1), qv}))})
+		}
+	}
+	// $all with members listed twice, also through a fan-out path
+	for _, d := range []bson.D{e("a", bson.A{int32(1), int32(2)}), e("a", bson.A{int32(1)}), e("a", int32(1)), e("a", bson.A{})} {
+		for _, l := range []bson.A{{int32(1), int32(2), int32(1)}, {int32(1), int32(1)}, {int32(2), int32(1), int32(2), int32(1)}, {int32(1), int32(1), int32(3)}} {
+			out = append(out, [2]bson.D{d, e("a", e("$all", l))})
+		}
+	}
+	return out
+}
+
 func fixedCases() [][2]bson.D {
-	return append(numericNameCases(), [][2]bson.D{
+	return append(append(numericNameCases(), bigNumberCases()...), [][2]bson.D{
 		// KF-C10-1: $type "array" over a fan-out path
 		{bson.D{{Key: "a", Value: bson.A{bson.D{{Key: "b", Value: bson.A{int32(1), int32(2)}}}}}}, bson.D{{Key: "a.b", Value: bson.D{{Key: "$type", Value: "array"}}}}},
 		{bson.D{{Key: "a", Value: bson.A{bson.D{{Key: "b", Value: bson.A{}}}}}}, bson.D{{Key: "a.b", Value: bson.D{{Key: "$type", Value: int32(4)}}}}},
